@@ -81,6 +81,11 @@ class Frame:
         self.loop_ord = {}
 
 
+def _has_q(f):
+    from .solve import _has_quant
+    return _has_quant(f)
+
+
 class Obligation:
     __slots__ = ('name', 'pc', 'goal', 'kind', 'func', 'line', 'hints', 'path', 'note')
 
@@ -198,7 +203,25 @@ class Interp:
             return {k: self.fresh_typed('%s[%s]' % (prefix, k), vt) for k in keys}
         if ty == 'opaque':
             return Opaque(prefix)
+        if ty == 'seqobj':
+            # an instance of the library's Sequence class with unconstrained fields (the invariant says what holds of it)
+            mod = self.sb.load('localcider.backend.sequence')
+            o = Obj(mod.Sequence, self.fresh_name(prefix))
+            o.fields.update(seq=self.fresh_seq(prefix + '.seq', 'str', 'char'), len=self.fresh(prefix + '.len', 'int'),
+                            chargePattern=self.fresh_seq(prefix + '.cp', 'nd', 'int'), dmax=self.fresh(prefix + '.dmax', 'real'),
+                            seqDeltaMax=None, phosphosites=[], aminoAcidColorMap=Opaque('palette'),
+                            ComplexityObject=Obj(mod.SequenceComplexity, 'cx'))
+            return o
         raise Unsupported('unknown type %r' % ty)
+
+    def provable(self, cond, timeout_ms=8000):
+        """a full (not the light) solver query on the current path condition, for side conditions the executor itself relies on"""
+        from . import solve
+        ob = Obligation('side-condition', list(self.pc), cond, 'side', self.top_key, self.cur_line, list(self.hints), (), '')
+        try:
+            return solve.discharge(ob, timeout_ms, use_cli=False)['verdict'] == 'proved'
+        except Exception:      # noqa
+            return False
 
     def assume(self, cond):
         if isinstance(cond, bool):
@@ -536,6 +559,9 @@ class Interp:
         h = ops.z3int(hi) if hi is not None else ss.n
         inr = z3.And(l >= 0, l <= h, h <= ss.n)
         if not self.in_spec and not self.feasible(z3.Not(inr)):
+            return SSeq(ss.arr, z3.simplify(ss.off + l), z3.simplify(h - l), ss.kind, ss.ek)
+        if not self.in_spec and self.pc and any(_has_q(f) for f in self.pc[-12:]) and self.provable(inr, 5000):
+            # the light check drops quantified facts (min/max of a slice, filters): ask the full pipeline once before clamping
             return SSeq(ss.arr, z3.simplify(ss.off + l), z3.simplify(h - l), ss.kind, ss.ek)
         return ops.slice_seq(base, lo, hi)
 
@@ -1008,7 +1034,23 @@ class Interp:
             self.check_not_global(t.value, fr)
             base = self.eval(t.value, fr)
             if isinstance(t.slice, ast.Slice):
-                raise Unsupported('slice assignment')
+                # x[a:b] = y on a list, for the case where a <= b are in range and y has exactly b - a elements (the list keeps its
+                # length); anything else (clamping, growing / shrinking) is outside the subset
+                if t.slice.step is not None or not isinstance(base, (SSeq, list)) or (isinstance(base, SSeq) and base.kind not in ('list',)):
+                    raise Unsupported('slice assignment')
+                old_ = ops.to_sseq(base)
+                rhs = ops.to_sseq(v)
+                a = ops.z3int(self.eval(t.slice.lower, fr)) if t.slice.lower is not None else z3.IntVal(0)
+                b = ops.z3int(self.eval(t.slice.upper, fr)) if t.slice.upper is not None else old_.n
+                ok = z3.And(0 <= a, a <= b, b <= old_.n, rhs.n == b - a)
+                if self.feasible(z3.Not(ok)) and not self.provable(ok):
+                    raise Unsupported('slice assignment whose bounds / length are not provably in range')
+                if old_.ek != rhs.ek:
+                    raise Unsupported('slice assignment with a different element kind')
+                j = z3.Int('j!sa')
+                arr = LAM(j, z3.If(z3.And(a <= j, j < b), z3.Select(rhs.arr, rhs.off + j - a), z3.Select(old_.arr, old_.off + j)))
+                self.assign(t.value, SSeq(arr, 0, old_.n, 'list', old_.ek), fr)
+                return
             idx = self.eval(t.slice, fr)
             if isinstance(base, SDict) or (isinstance(base, dict) and len(base) == 0 and is_symbolic(idx) and ops.kind_of(idx) == 'int'):
                 ek = ops.elem_kind_of_value(v)
@@ -1329,6 +1371,12 @@ class Interp:
                     raise Unsupported('concrete while loop too long')
         key = fr.fi.key
         tag = '%s.loop%d' % (key, o)
+        # typed loop variables that are not assigned before the loop (first assigned in its body): the invariant may mention them under
+        # a guard; they get an arbitrary value of their type for the establish check (definite assignment is NOT checked: see DESIGN 1.2)
+        for nm_, ty_ in (spec.get('types') or {}).items():
+            if '.' not in nm_ and nm_ not in fr.env:
+                fr.env[nm_] = self.fresh_typed(nm_, ty_)
+                self.trusted_used.add('definite assignment of `%s` in %s is argued, not checked' % (nm_, key))
         self.check_invariants(spec, fr, tag, 'establish', s.lineno)
         mode = self.choose(2)
         self.havoc_loop(s, fr, o, spec)
@@ -1380,8 +1428,16 @@ class Interp:
         return z3.Or(conds)
 
     def check_invariants(self, spec, fr, tag, phase, line):
+        from . import speclib
         for n, inv in enumerate(spec.get('invariant', [])):
-            g = self.eval_spec(inv, fr)
+            wit = (spec.get('witness') or {}).get(n) if phase == 'preserve' else None
+            if wit:
+                # the existential quantifiers of this invariant are proved with the given witnesses (terms over the state at the back edge)
+                speclib._WITNESS[:] = [self.eval_spec(w, fr) for w in wit]
+            try:
+                g = self.eval_spec(inv, fr)
+            finally:
+                speclib._WITNESS[:] = []
             self.oblige('%s.inv%d.%s' % (tag, n, phase), g, 'invariant', line, note=inv)
 
     def assume_lemmas(self, texts, fr):
